@@ -752,4 +752,413 @@ theorem pTailO_toks : ∀ (kvs : List (String × JVal)), noExprO kvs = true → 
 end
 
 
+/-! ## the character-level tokenizer on emitted texts -/
+
+/-- what can follow a token in an emitted text: the end, or one of `, ] } :` -/
+def sepStart (rest : Str) : Prop :=
+  rest = [] ∨ ∃ c r, rest = c :: r ∧ (c = ',' ∨ c = ']' ∨ c = '}' ∨ c = ':')
+
+theorem sepStart_nil : sepStart [] := Or.inl rfl
+theorem sepStart_comma (r : Str) : sepStart (',' :: r) := Or.inr ⟨_, _, rfl, Or.inl rfl⟩
+theorem sepStart_rbrack (r : Str) : sepStart (']' :: r) := Or.inr ⟨_, _, rfl, Or.inr (Or.inl rfl)⟩
+theorem sepStart_rbrace (r : Str) : sepStart ('}' :: r) := Or.inr ⟨_, _, rfl, Or.inr (Or.inr (Or.inl rfl))⟩
+theorem sepStart_colon (r : Str) : sepStart (':' :: r) := Or.inr ⟨_, _, rfl, Or.inr (Or.inr (Or.inr rfl))⟩
+
+/-- the first character of what follows satisfies none of the scanners' character classes -/
+theorem sepStart_head (rest : Str) (h : sepStart rest) (c : Char) (r : Str) (hr : rest = c :: r) :
+    isDigit c = false ∧ isIdentChar c = false ∧ c ≠ '.' ∧ c ≠ 'e' ∧ c ≠ 'E' ∧ c ≠ '"' := by
+  rcases h with h | ⟨c', r', h, hc⟩
+  · rw [h] at hr; cases hr
+  · rw [h] at hr; cases hr
+    rcases hc with hc | hc | hc | hc <;> subst hc <;> decide
+
+theorem span_append (p : Char → Bool) (l rest : Str) (hr : ∀ c r, rest = c :: r → p c = false) :
+    (l ++ rest).takeWhile p = l.takeWhile p ∧ (l ++ rest).dropWhile p = l.dropWhile p ++ rest := by
+  induction l with
+  | nil =>
+    cases rest with
+    | nil => simp
+    | cons c r => simp [List.takeWhile_cons, List.dropWhile_cons, hr c r rfl]
+  | cons d l ih =>
+    by_cases hd : p d = true
+    · simp [List.takeWhile_cons, List.dropWhile_cons, hd, ih.1, ih.2]
+    · simp [List.takeWhile_cons, List.dropWhile_cons, hd]
+
+theorem length_span (p : Char → Bool) (l : Str) : (l.takeWhile p).length + (l.dropWhile p).length = l.length := by
+  rw [← List.length_append, List.takeWhile_append_dropWhile]
+
+theorem expLen_sep (rest : Str) (h : sepStart rest) : expLen rest = 0 := by
+  cases rest with
+  | nil => rfl
+  | cons c r =>
+    obtain ⟨_, _, _, he, hE, _⟩ := sepStart_head _ h c r rfl
+    simp [expLen, he, hE]
+
+theorem splitExp_expLen (t rest : Str) (ex) (h : splitExp t = some ex) (hs : sepStart rest) :
+    expLen (t ++ rest) = t.length := by
+  have hnd : ∀ c r, rest = c :: r → isDigit c = false := fun c r hr => (sepStart_head _ hs c r hr).1
+  cases t with
+  | nil => simpa using expLen_sep rest hs
+  | cons l t1 =>
+    simp only [splitExp] at h
+    split at h
+    · rename_i hl
+      cases t1 with
+      | nil => simp at h
+      | cons s t2 =>
+        simp only at h
+        split at h
+        · rename_i hsg
+          split at h
+          · rename_i hd
+            have := span_append isDigit t2 rest hnd
+            have htw : t2.takeWhile isDigit = t2 := by
+              have := span_digits t2 [] hd.2 (by intro c r h; cases h)
+              simpa using this.1
+            simp only [List.cons_append, expLen, hl, if_true, hsg, this.1, htw]
+            simp [hd.1]; omega
+          · simp at h
+        · rename_i hsg
+          split at h
+          · rename_i hd
+            have := span_append isDigit (s :: t2) rest hnd
+            have htw : (s :: t2).takeWhile isDigit = s :: t2 := by
+              have := span_digits (s :: t2) [] hd (by intro c r h; cases h)
+              simpa using this.1
+            simp only [List.cons_append] at this
+            simp only [List.cons_append, expLen, hl, if_true, hsg, if_false, this.1, htw]
+            simp; omega
+          · simp at h
+    · simp at h
+
+/-- the part of a numeral after its integer digits is consumed completely, and nothing more -/
+theorem splitAfter_numLenAfter (neg : Bool) (ip s2 rest : Str) (p : NumParts)
+    (h : splitAfter neg ip s2 = some p) (hs : sepStart rest) :
+    numLenAfter ip.length (s2 ++ rest) = some (ip.length + s2.length) := by
+  have hnd : ∀ c r, rest = c :: r → isDigit c = false := fun c r hr => (sepStart_head _ hs c r hr).1
+  unfold splitAfter at h
+  by_cases hip : ip = []
+  · simp [hip] at h
+  · have hl : ip.length ≠ 0 := by simpa using hip
+    simp only [hip, if_false] at h
+    cases s2 with
+    | nil =>
+      cases rest with
+      | nil => simp [numLenAfter, hl]
+      | cons c r =>
+        obtain ⟨_, _, hdot, _⟩ := sepStart_head _ hs c r rfl
+        simp [numLenAfter, hl, hdot, expLen_sep _ hs]
+    | cons c s3 =>
+      simp only at h
+      by_cases hc : c = '.'
+      · simp only [hc, if_true] at h
+        by_cases hf : List.takeWhile isDigit s3 = []
+        · simp [hf] at h
+        · simp only [hf, if_false] at h
+          split at h
+          · rename_i ex hex
+            have hsp := span_append isDigit s3 rest hnd
+            have hlen := length_span isDigit s3
+            simp only [List.cons_append, numLenAfter, hc, if_true, hsp.1, hsp.2, hf, and_false, if_false,
+              splitExp_expLen _ rest _ hex hs, List.length_cons]
+            congr 1; omega
+          · simp at h
+      · simp only [hc, if_false] at h
+        split at h
+        · rename_i ex hex
+          have := splitExp_expLen _ rest _ hex hs
+          simp only [List.cons_append] at this
+          simp only [List.cons_append, numLenAfter, hc, if_false, hl, this, List.length_cons]
+        · simp at h
+
+theorem numeral_numLen (x rest : Str) (h : isNumeral x = true) (hs : sepStart rest) :
+    numLen (x ++ rest) = some x.length := by
+  have hnd : ∀ c r, rest = c :: r → isDigit c = false := fun c r hr => (sepStart_head _ hs c r hr).1
+  unfold isNumeral at h
+  cases hp : splitNumeral x with
+  | none => simp [hp] at h
+  | some p =>
+    cases x with
+    | nil => simp [splitNumeral] at hp
+    | cons c r =>
+      simp only [splitNumeral, splitUnsigned] at hp
+      simp only [List.cons_append, numLen]
+      split at hp
+      · rename_i hc
+        have hsp := span_append isDigit r rest hnd
+        have hlen := length_span isDigit r
+        simp only [hc, if_true, hsp.1, hsp.2, splitAfter_numLenAfter _ _ _ rest _ hp hs, Option.map_some,
+          List.length_cons]
+        congr 1; omega
+      · rename_i hc
+        have hsp := span_append isDigit (c :: r) rest hnd
+        have hlen := length_span isDigit (c :: r)
+        simp only [List.cons_append] at hsp
+        simp only [hc, if_false, hsp.1, hsp.2, splitAfter_numLenAfter _ _ _ rest _ hp hs]
+        congr 1
+
+/-- a numeral followed by a separator is cut off as one token, exactly -/
+theorem nextTok_numeral (x rest : Str) (h : isNumeral x = true) (hs : sepStart rest) :
+    nextTok (x ++ rest) = some (.lit x, x.length) := by
+  obtain ⟨c, r, hx, hc⟩ := splitNumeral_head x h
+  have hn := numeral_numLen x rest h hs
+  have hc' : c = '-' ∨ c = '.' ∨ isDigit c = true := by
+    rcases hc with h | h
+    · exact Or.inl h
+    · exact Or.inr (Or.inr h)
+  have htake : (x ++ rest).take x.length = x := by simp
+  subst hx
+  simp only [List.cons_append] at hn htake ⊢
+  simp only [nextTok, hc', if_true, hn, htake]
+
+/-- `str(int)` is a numeral -/
+theorem isNumeral_renderInt (n : Int) : isNumeral (renderInt n) = true := by
+  have key : ∀ (neg : Bool) (k : Nat), splitUnsigned neg (renderNat k) = some ⟨neg, renderNat k, none, none⟩ := by
+    intro neg k
+    obtain ⟨h1, h2, _⟩ := renderNat_spec k
+    have := span_digits (renderNat k) [] h1 (by intro c r h; cases h)
+    simp only [List.append_nil] at this
+    simp [splitUnsigned, this.1, this.2, splitAfter, h2]
+  unfold renderInt isNumeral
+  split
+  · simp [splitNumeral, key]
+  · obtain ⟨c, r, hcr, hd⟩ := renderNat_head n.natAbs
+    have hne := isDigit_ne_minus c hd
+    have := key false n.natAbs
+    rw [hcr] at this ⊢
+    simp [splitNumeral, hne, this]
+
+/-- `repr(float)` of a multiple of 1/8 is a numeral -/
+theorem isNumeral_renderFlt (e : Int) : isNumeral (renderFlt e) = true := by
+  have key : ∀ (neg : Bool) (q r : Nat), ∃ p, splitUnsigned neg (renderNat q ++ '.' :: fracDigits r) = some p := by
+    intro neg q r
+    obtain ⟨h1, h2, _⟩ := renderNat_spec q
+    have hs := span_digits (renderNat q) ('.' :: fracDigits r) h1 (by intro c r h; cases h; decide)
+    have hf := span_digits (fracDigits r) [] (fracDigits_all r) (by intro c r h; cases h)
+    simp only [List.append_nil] at hf
+    have hne : fracDigits r ≠ [] := by unfold fracDigits; split <;> simp
+    exact ⟨⟨neg, renderNat q, some (fracDigits r), none⟩,
+      by simp [splitUnsigned, hs.1, hs.2, splitAfter, h2, hf.1, hf.2, hne, splitExp]⟩
+  unfold renderFlt isNumeral
+  split
+  · obtain ⟨p, hp⟩ := key true (e.natAbs / 8) (e.natAbs % 8)
+    simp [splitNumeral, hp]
+  · obtain ⟨c, r, hcr, hd⟩ := renderNat_head (e.natAbs / 8)
+    have hne := isDigit_ne_minus c hd
+    obtain ⟨p, hp⟩ := key false (e.natAbs / 8) (e.natAbs % 8)
+    rw [hcr] at hp ⊢
+    simp only [List.nil_append, List.cons_append] at hp ⊢
+    simp [splitNumeral, hne, hp]
+
+theorem quoteStr_length_pos (s : Str) : ∃ b, quoteStr s = '"' :: b := by
+  unfold quoteStr; split <;> exact ⟨_, rfl⟩
+
+/-- a quoted string followed by a separator is cut off as one token, exactly -/
+theorem nextTok_quoteStr (s rest : Str) (hs : sepStart rest) :
+    nextTok (quoteStr s ++ rest) = some (.lit (quoteStr s), (quoteStr s).length) := by
+  have hq : ∀ c r, rest = c :: r → c ≠ '"' := fun c r hr => (sepStart_head _ hs c r hr).2.2.2.2.2
+  have htake : (quoteStr s ++ rest).take (quoteStr s).length = quoteStr s := by simp
+  have hnum : ¬('"' = '-' ∨ '"' = '.' ∨ isDigit '"' = true) := by decide
+  suffices h : ∃ b, quoteStr s = '"' :: b ∧ strLen (b ++ rest) = some (quoteStr s).length by
+    obtain ⟨b, hb, hl⟩ := h
+    rw [hb] at htake hl ⊢
+    simp only [List.cons_append] at htake ⊢
+    simp only [nextTok, hnum, if_false, if_true, hl, htake]
+  unfold quoteStr
+  split
+  · refine ⟨_, rfl, ?_⟩
+    have := scanLong_escBody s rest
+    simp only [List.cons_append, List.append_assoc, List.nil_append, strLen, List.take, if_true, List.drop, this]
+    simp only [List.length_cons, List.length_append, List.length_nil]
+    congr 1; omega
+  · rename_i hnq
+    simp only [Bool.not_eq_true] at hnq
+    refine ⟨_, rfl, ?_⟩
+    have key := scanShort_escBody s rest hnq
+    have hne : (escBody s ++ ['"'] ++ rest).take 2 ≠ ['"', '"'] := by
+      cases s with
+      | nil =>
+        cases rest with
+        | nil => simp [escBody]
+        | cons c r => simp [escBody]; exact hq c r rfl
+      | cons c s =>
+        have hq' := hnq
+        rw [hasQuote_cons] at hq'
+        simp only [Bool.or_eq_false_iff, decide_eq_false_iff_not] at hq'
+        obtain ⟨d, r, hd, hdq⟩ := escChar_head c hq'.1
+        simp only [escBody, hd, List.cons_append]
+        intro h
+        cases hr : (r ++ escBody s ++ ['"'] ++ rest) with
+        | nil => simp at h; exact hdq h.1
+        | cons x xs => simp [hr] at h; exact hdq h.1
+    simp only [List.append_assoc, List.cons_append, List.nil_append] at hne key ⊢
+    simp only [strLen, hne, if_false, key]
+    simp only [List.length_cons, List.length_append, List.length_nil]
+    congr 1; omega
+
+theorem takeWhile_all (p : Char → Bool) (w : Str) (h : w.all p = true) : w.takeWhile p = w := by
+  induction w with
+  | nil => rfl
+  | cons c w ih =>
+    simp only [List.all_cons, Bool.and_eq_true] at h
+    simp [List.takeWhile_cons, h.1, ih h.2]
+
+theorem nextTok_word (w rest : Str) (hw : w = nullText ∨ w = trueText ∨ w = falseText) (hs : sepStart rest) :
+    nextTok (w ++ rest) = some (.lit w, w.length) := by
+  have hni : ∀ c r, rest = c :: r → isIdentChar c = false := fun c r hr => (sepStart_head _ hs c r hr).2.1
+  have hall : w.all isIdentChar = true := by rcases hw with h | h | h <;> subst h <;> decide
+  have hsp : (w ++ rest).takeWhile isIdentChar = w := by
+    rw [(span_append isIdentChar w rest hni).1, takeWhile_all _ _ hall]
+  rcases hw with h | h | h <;> subst h
+  · simp only [nullText, List.cons_append, List.nil_append] at hsp ⊢
+    simp [nextTok, isDigit, isIdentStart, hsp, nullText, trueText, falseText]
+  · simp only [trueText, List.cons_append, List.nil_append] at hsp ⊢
+    simp [nextTok, isDigit, isIdentStart, hsp, nullText, trueText, falseText]
+  · simp only [falseText, List.cons_append, List.nil_append] at hsp ⊢
+    simp [nextTok, isDigit, isIdentStart, hsp, nullText, trueText, falseText]
+
+
+/-- prepend a token list to a tokenisation result -/
+def appToks (ts : List Tok) : Option (List Tok) → Option (List Tok)
+  | some r => some (ts ++ r)
+  | none => none
+
+theorem appToks_nil (o : Option (List Tok)) : appToks [] o = o := by cases o <;> rfl
+theorem appToks_cons (t : Tok) (ts : List Tok) (o : Option (List Tok)) :
+    appToks (t :: ts) o = consTok t (appToks ts o) := by cases o <;> rfl
+theorem appToks_append (a b : List Tok) (o : Option (List Tok)) :
+    appToks (a ++ b) o = appToks a (appToks b o) := by cases o <;> simp [appToks]
+theorem consTok_eq (t : Tok) (o : Option (List Tok)) : consTok t o = appToks [t] o := by cases o <;> rfl
+
+theorem tokenize_tok (c : Char) (x' rest : Str) (tok : Tok) (hws : isWs c = false)
+    (h : nextTok ((c :: x') ++ rest) = some (tok, (c :: x').length)) :
+    tokenize ((c :: x') ++ rest) = consTok tok (tokenize rest) := by
+  simp only [List.cons_append] at h ⊢
+  rw [tokenize]
+  simp [hws, h]
+
+theorem tokenize_punct (c : Char) (tok : Tok) (rest : Str)
+    (h : (c = '[' ∧ tok = .lbrack) ∨ (c = ']' ∧ tok = .rbrack) ∨ (c = '{' ∧ tok = .lbrace) ∨
+         (c = '}' ∧ tok = .rbrace) ∨ (c = ',' ∧ tok = .comma) ∨ (c = ':' ∧ tok = .colon)) :
+    tokenize (c :: rest) = consTok tok (tokenize rest) := by
+  have := tokenize_tok c [] rest tok
+  simp only [List.cons_append, List.nil_append, List.length_cons, List.length_nil] at this
+  rcases h with ⟨hc, ht⟩ | ⟨hc, ht⟩ | ⟨hc, ht⟩ | ⟨hc, ht⟩ | ⟨hc, ht⟩ | ⟨hc, ht⟩ <;> subst hc <;> subst ht <;>
+    exact this (by decide) (by simp [nextTok, isDigit, isIdentStart])
+
+theorem isWs_of_numeral_head (c : Char) (h : c = '-' ∨ isDigit c = true) : isWs c = false := by
+  rcases h with h | h
+  · subst h; decide
+  · unfold isDigit at h
+    simp only [Bool.and_eq_true, decide_eq_true_eq] at h
+    unfold isWs
+    have e1 : c ≠ ' ' := by intro e; subst e; revert h; decide
+    have e2 : c ≠ '\t' := by intro e; subst e; revert h; decide
+    have e3 : c ≠ '\n' := by intro e; subst e; revert h; decide
+    have e4 : c ≠ '\r' := by intro e; subst e; revert h; decide
+    have e5 : c ≠ Char.ofNat 12 := by intro e; subst e; revert h; decide
+    simp [e1, e2, e3, e4, e5]
+
+theorem tokenize_numeral (x rest : Str) (h : isNumeral x = true) (hs : sepStart rest) :
+    tokenize (x ++ rest) = consTok (.lit x) (tokenize rest) := by
+  obtain ⟨c, r, hx, hc⟩ := splitNumeral_head x h
+  have := nextTok_numeral x rest h hs
+  subst hx
+  exact tokenize_tok c r rest _ (isWs_of_numeral_head c hc) this
+
+theorem tokenize_quoteStr (s rest : Str) (hs : sepStart rest) :
+    tokenize (quoteStr s ++ rest) = consTok (.lit (quoteStr s)) (tokenize rest) := by
+  obtain ⟨b, hb⟩ := quoteStr_length_pos s
+  have := nextTok_quoteStr s rest hs
+  rw [hb] at this ⊢
+  exact tokenize_tok '"' b rest _ (by decide) this
+
+theorem tokenize_word (w rest : Str) (hw : w = nullText ∨ w = trueText ∨ w = falseText) (hs : sepStart rest) :
+    tokenize (w ++ rest) = consTok (.lit w) (tokenize rest) := by
+  have := nextTok_word w rest hw hs
+  rcases hw with h | h | h <;> subst h
+  · exact tokenize_tok 'n' _ rest _ (by decide) this
+  · exact tokenize_tok 't' _ rest _ (by decide) this
+  · exact tokenize_tok 'f' _ rest _ (by decide) this
+
+theorem tokenize_encodeStr (s rest : Str) (he : startsWithEq s = false) (hs : sepStart rest) :
+    tokenize (encodeStr s ++ rest) = consTok (.lit (encodeStr s)) (tokenize rest) := by
+  cases hn : isNumeral s with
+  | true =>
+    have : encodeStr s = s := by simp [encodeStr, hn]
+    rw [this]; exact tokenize_numeral s rest hn hs
+  | false =>
+    rw [encodeStr_of_nonnumeral s hn he]; exact tokenize_quoteStr s rest hs
+
+theorem sepStart_encTail (xs : List JVal) (rest : Str) : sepStart (encTail xs ++ ']' :: rest) := by
+  cases xs with
+  | nil => simpa [encTail] using sepStart_rbrack rest
+  | cons x xs => simpa [encTail] using sepStart_comma _
+
+theorem sepStart_encTailO (kvs : List (String × JVal)) (rest : Str) : sepStart (encTailO kvs ++ '}' :: rest) := by
+  cases kvs with
+  | nil => simpa [encTailO] using sepStart_rbrace rest
+  | cons kv kvs => obtain ⟨k, v⟩ := kv; simpa [encTailO] using sepStart_comma _
+
+mutual
+/-- celpy-style tokenisation of the emitted text of a value, followed by a separator or the end, yields
+    exactly the tokens `toks v` and continues with what follows -/
+theorem tokenize_enc : ∀ (v : JVal), noExpr v = true → ∀ (rest : Str), sepStart rest →
+    tokenize (enc v ++ rest) = appToks (toks v) (tokenize rest)
+  | .null, _, rest, hs => by
+    simp only [enc, toks, appToks_cons, appToks_nil]; exact tokenize_word _ rest (Or.inl rfl) hs
+  | .bool b, _, rest, hs => by
+    simp only [enc, toks, appToks_cons, appToks_nil]
+    cases b
+    · exact tokenize_word _ rest (Or.inr (Or.inr rfl)) hs
+    · exact tokenize_word _ rest (Or.inr (Or.inl rfl)) hs
+  | .int n, _, rest, hs => by
+    simp only [enc, toks, appToks_cons, appToks_nil]; exact tokenize_numeral _ rest (isNumeral_renderInt n) hs
+  | .flt e, _, rest, hs => by
+    simp only [enc, toks, appToks_cons, appToks_nil]; exact tokenize_numeral _ rest (isNumeral_renderFlt e) hs
+  | .str s, hne, rest, hs => by
+    simp only [noExpr, Bool.not_eq_true'] at hne
+    simp only [enc, toks, appToks_cons, appToks_nil]; exact tokenize_encodeStr _ rest hne hs
+  | .arr [], _, rest, _ => by
+    simp only [enc, toks, List.cons_append, List.nil_append, appToks_cons, appToks_nil]
+    rw [tokenize_punct '[' .lbrack _ (Or.inl ⟨rfl, rfl⟩), tokenize_punct ']' .rbrack _ (Or.inr (Or.inl ⟨rfl, rfl⟩))]
+  | .arr (x :: xs), hne, rest, _ => by
+    simp only [noExpr, noExprL, Bool.and_eq_true] at hne
+    simp only [enc, toks, List.cons_append, List.append_assoc, List.nil_append, appToks_cons, appToks_append, appToks_nil]
+    rw [tokenize_punct '[' .lbrack _ (Or.inl ⟨rfl, rfl⟩),
+      tokenize_enc x hne.1 _ (sepStart_encTail xs rest), tokenize_encTail xs hne.2 rest,
+      tokenize_punct ']' .rbrack _ (Or.inr (Or.inl ⟨rfl, rfl⟩))]
+  | .obj [], _, rest, _ => by
+    simp only [enc, toks, List.cons_append, List.nil_append, appToks_cons, appToks_nil]
+    rw [tokenize_punct '{' .lbrace _ (Or.inr (Or.inr (Or.inl ⟨rfl, rfl⟩))),
+      tokenize_punct '}' .rbrace _ (Or.inr (Or.inr (Or.inr (Or.inl ⟨rfl, rfl⟩))))]
+  | .obj ((k, v) :: kvs), hne, rest, _ => by
+    simp only [noExpr, noExprO, Bool.and_eq_true] at hne
+    simp only [enc, toks, List.cons_append, List.append_assoc, List.nil_append, appToks_cons, appToks_append, appToks_nil]
+    rw [tokenize_punct '{' .lbrace _ (Or.inr (Or.inr (Or.inl ⟨rfl, rfl⟩))),
+      tokenize_quoteStr _ _ (sepStart_colon _),
+      tokenize_punct ':' .colon _ (Or.inr (Or.inr (Or.inr (Or.inr (Or.inr ⟨rfl, rfl⟩))))),
+      tokenize_enc v hne.1 _ (sepStart_encTailO kvs rest), tokenize_encTailO kvs hne.2 rest,
+      tokenize_punct '}' .rbrace _ (Or.inr (Or.inr (Or.inr (Or.inl ⟨rfl, rfl⟩))))]
+theorem tokenize_encTail : ∀ (xs : List JVal), noExprL xs = true → ∀ (rest : Str),
+    tokenize (encTail xs ++ ']' :: rest) = appToks (toksTail xs) (tokenize (']' :: rest))
+  | [], _, rest => by simp [encTail, toksTail, appToks_nil]
+  | x :: xs, hne, rest => by
+    simp only [noExprL, Bool.and_eq_true] at hne
+    simp only [encTail, toksTail, List.cons_append, List.append_assoc, appToks_cons, appToks_append]
+    rw [tokenize_punct ',' .comma _ (Or.inr (Or.inr (Or.inr (Or.inr (Or.inl ⟨rfl, rfl⟩))))),
+      tokenize_enc x hne.1 _ (sepStart_encTail xs rest), tokenize_encTail xs hne.2 rest]
+theorem tokenize_encTailO : ∀ (kvs : List (String × JVal)), noExprO kvs = true → ∀ (rest : Str),
+    tokenize (encTailO kvs ++ '}' :: rest) = appToks (toksTailO kvs) (tokenize ('}' :: rest))
+  | [], _, rest => by simp [encTailO, toksTailO, appToks_nil]
+  | (k, v) :: kvs, hne, rest => by
+    simp only [noExprO, Bool.and_eq_true] at hne
+    simp only [encTailO, toksTailO, List.cons_append, List.append_assoc, appToks_cons, appToks_append]
+    rw [tokenize_punct ',' .comma _ (Or.inr (Or.inr (Or.inr (Or.inr (Or.inl ⟨rfl, rfl⟩))))),
+      tokenize_quoteStr _ _ (sepStart_colon _),
+      tokenize_punct ':' .colon _ (Or.inr (Or.inr (Or.inr (Or.inr (Or.inr ⟨rfl, rfl⟩))))),
+      tokenize_enc v hne.1 _ (sepStart_encTailO kvs rest), tokenize_encTailO kvs hne.2 rest]
+end
+
+
 end Koreo.Encoder
